@@ -89,6 +89,12 @@ func genC04(c *Ctx) any {
 	if cs.Mode == "grpc" {
 		// the server's defaults: LRU cache of 50 MiB, optional preload
 		cs.Open.Cache, cs.Open.CacheBytes = "lru", 50<<20
+		// protobuf string fields cannot carry invalid UTF-8
+		for i := range cs.Data.Spec.Cols {
+			if cs.Data.Spec.Cols[i].Kind == "bin" {
+				cs.Data.Spec.Cols[i].Kind = "utf8"
+			}
+		}
 	}
 	si := infoOf(cs.Data.Spec.Expand())
 	var pool []*Query
@@ -178,6 +184,7 @@ func runC04(c *Ctx, body json.RawMessage) *Verdict {
 	var res *simrt.Result
 	var openErr error
 	var probe *cacheProbe
+	wireErr := false
 	c.Bubble(func() {
 		var idx *updog.Index
 		idx, probe, openErr = OpenIndex(path, cs.Open, c.Seed)
@@ -203,9 +210,12 @@ func runC04(c *Ctx, body json.RawMessage) *Verdict {
 					for _, q := range op.Batch {
 						req.Queries = append(req.Queries, q.ToProto(0))
 					}
-					wire, _ := proto.Marshal(req)
+					wire, err := proto.Marshal(req)
 					dec := &pb.QueryRequest{}
-					_ = proto.Unmarshal(wire, dec)
+					if err != nil || proto.Unmarshal(wire, dec) != nil {
+						wireErr = true
+						return
+					}
 					reqs[t][i] = dec
 				case "exec":
 					uqs[t][i] = op.Q.ToUpdog() // each task owns its Query values
@@ -236,6 +246,9 @@ func runC04(c *Ctx, body json.RawMessage) *Verdict {
 	})
 	if openErr != nil {
 		return v.Harness("open index: %v", openErr)
+	}
+	if wireErr {
+		return Invalid("request not encodable as protobuf (invalid UTF-8 in a string field)")
 	}
 	if res == nil {
 		return v.Harness("simulation did not run")
